@@ -7,7 +7,7 @@ export PYTHONHASHSEED=0 PYTHONDONTWRITEBYTECODE=1
 import sys; sys.path.insert(0,'harness'); import common
 errs = common.regen()
 print('regen:', errs or 'ok')
+common.write_coqproject()
 "
 cd coq
-coq_makefile -f _CoqProject -o Makefile >/dev/null
 timeout 3000 make -j16 2>&1 | grep -v '^Closed under' | tail -30
